@@ -300,4 +300,15 @@ example : (specTrace (specInit [-1, -1, -1])
     [⟨.relay 10 1 none (some 20) none, [0, 0, 0, 0, 0, 0]⟩, ⟨.conn 0, [0, 0, 0, 0, 0, 0]⟩,
      ⟨.replay 20 0 [.m 1 10] none, [0, 0, 0, 0, 0, 0]⟩] 0) = none := by decide
 
+/-- Equal is not older: a receiver that drops a message whose `ts` EQUALS its recorded position is rejected,
+    and so is one that processes an older message. -/
+example : (specStep { (specInit [-1, -1, -1]) with pos := [0, 10, 0, 0, 0, 0] } ⟨.recv 0 10 false, [0, 10, 0, 0, 0, 0]⟩).1
+    = some .receiverAcceptsNotOlder := by decide
+
+example : (specStep { (specInit [-1, -1, -1]) with pos := [0, 10, 0, 0, 0, 0] } ⟨.recv 0 9 true, [0, 9, 0, 0, 0, 0]⟩).1
+    = some .receiverFilter := by decide
+
+example : (specStep { (specInit [-1, -1, -1]) with pos := [0, 10, 0, 0, 0, 0] } ⟨.recv 0 10 true, [0, 10, 0, 0, 0, 0]⟩).1
+    = none := by decide
+
 end Icinga.C12
